@@ -93,7 +93,7 @@ def cmd_import(src, sid):
 
 
 def cmd_run(ids, tier, props):
-    res_f = SEEDED / "RESULTS.json"
+    res_f = pathlib.Path(os.environ.get("SEED_RESULTS", str(SEEDED / "RESULTS.json")))
     results = json.loads(res_f.read_text()) if res_f.exists() else {}
     ids = ids or sorted(p.name for p in SEEDED.iterdir() if (p / "patch.diff").exists())
     for sid in ids:
